@@ -37,6 +37,7 @@ import (
 	"sort"
 	"strings"
 
+	"golang.org/x/tools/go/ast/astutil"
 	"golang.org/x/tools/go/packages"
 )
 
@@ -240,7 +241,50 @@ func (w *weaver) yieldStmt(pos token.Pos, op string, obj ast.Expr) ast.Stmt {
 	return &ast.ExprStmt{X: &ast.CallExpr{Fun: ast.NewIdent("verifYield"), Args: []ast.Expr{w.site(pos, op), obj}}}
 }
 
+// detPools replaces the type sync.Pool by verifPool (package vgirpc only; the
+// type comes from overlay_src/pool_verif.go): whether a Get reuses an earlier
+// Put or misses is then a tape decision of the run instead of a property of
+// the Go runtime's per-P caches and GC timing.
+func (w *weaver) detPools(f *ast.File) {
+	if w.pkg.Name() != "vgirpc" {
+		return
+	}
+	n := 0
+	astutil.Apply(f, func(c *astutil.Cursor) bool {
+		se, ok := c.Node().(*ast.SelectorExpr)
+		if !ok || se.Sel.Name != "Pool" {
+			return true
+		}
+		if tn, ok := w.info.Uses[se.Sel].(*types.TypeName); ok && tn.Pkg() != nil && tn.Pkg().Path() == "sync" {
+			c.Replace(ast.NewIdent("verifPool"))
+			n++
+		}
+		return true
+	}, nil)
+	if n == 0 {
+		return
+	}
+	w.count["pool-type"] += n
+	// keep the sync import used whatever else the file does with it
+	var syncName string
+	for _, im := range f.Imports {
+		if im.Path.Value == `"sync"` {
+			syncName = "sync"
+			if im.Name != nil {
+				syncName = im.Name.Name
+			}
+		}
+	}
+	if syncName != "" && syncName != "_" && syncName != "." {
+		f.Decls = append(f.Decls, &ast.GenDecl{Tok: token.VAR, Specs: []ast.Spec{&ast.ValueSpec{
+			Names: []*ast.Ident{ast.NewIdent("_")},
+			Type:  &ast.SelectorExpr{X: ast.NewIdent(syncName), Sel: ast.NewIdent("Mutex")},
+		}}})
+	}
+}
+
 func (w *weaver) file(f *ast.File) {
+	w.detPools(f)
 	for _, d := range f.Decls {
 		fd, ok := d.(*ast.FuncDecl)
 		if !ok || fd.Body == nil {
